@@ -777,6 +777,11 @@ func (t *Tokenizer) readIdentifier() (models.Token, error) {
 
 	// Determine token type based on whether it's a keyword
 	upperIdent := strings.ToUpper(ident)
+	if !isASCIIText(ident) {
+		// keywords are ASCII words: a name with a letter such as U+017F or
+		// U+0131, which ToUpper folds to S and I, is not one
+		upperIdent = ident
+	}
 	tokenType, isKeyword := keywordTokenTypes[upperIdent]
 	if !isKeyword {
 		tokenType = models.TokenTypeIdentifier
@@ -820,7 +825,7 @@ func (t *Tokenizer) readIdentifier() (models.Token, error) {
 				upperCompound := strings.ToUpper(compoundKeyword)
 
 				// Check if it's a valid compound keyword
-				if compoundType, ok := compoundKeywordTypes[upperCompound]; ok {
+				if compoundType, ok := compoundKeywordTypes[upperCompound]; ok && isASCIIText(nextIdent) {
 					return models.Token{
 						Type:  compoundType,
 						Word:  word,
@@ -841,6 +846,16 @@ func (t *Tokenizer) readIdentifier() (models.Token, error) {
 		Word:  word,
 		Value: ident,
 	}, nil
+}
+
+// isASCIIText reports whether s consists of ASCII bytes only.
+func isASCIIText(s string) bool {
+	for i := 0; i < len(s); i++ {
+		if s[i] >= utf8.RuneSelf {
+			return false
+		}
+	}
+	return true
 }
 
 // atCommentStart reports whether the input at the cursor opens a line or block comment.
